@@ -62,6 +62,8 @@ pub const FRAGMENTS: &[&str] = &[
     "a", "Z", "0", "9", "7", ";", "=", "%", "\n", " ", "é", "€", "😀", "n", "s", "i", "g", "b", "+", "-", ":", ",",
     "[", "{", "}", "%3b", "%25", "ns=", "svr=", "nsu=", "x", "\t", "\u{0}", "#", "!", "&", "/", ".", "<", ">",
     "\"", "'", "\\", "~", "null",
+    // the first / last scalar value of each UTF-8 length
+    "\u{7f}", "\u{80}", "\u{7ff}", "\u{800}", "\u{ffff}", "\u{10000}", "\u{10ffff}",
 ];
 
 pub fn rand_string(rng: &mut Rng, max_frag: usize) -> String {
@@ -460,7 +462,26 @@ const HAND_WRITTEN: &[(&str, &str)] = &[
     ("range", "4294967296"),
     ("range", "0:4294967296"),
     ("range", "9999999999:9999999999"),
+    ("nodeid", "s=\u{7f}\u{80}\u{7ff}\u{800}\u{ffff}\u{10000}\u{10ffff}"),
+    ("nodeid", "ns=1;s=\u{80}"),
+    ("ident", "s=\u{800}"),
+    ("ident", "\u{80}"),
+    ("ident", "\u{7f}="),
+    ("ident", "\u{80}=5"),
+    ("ident", "i\u{80}"),
+    ("exp", "svr=1;nsu=\u{80}\u{800}\u{10000};s=\u{7ff}\u{ffff}"),
     ("range", "1:1"),
+    // 11 digits with leading zeros: in range as a number, rejected by `{1,10}`; 10 digits with leading zeros accepted
+    ("range", "1:00000000005"),
+    ("range", "00000000001:5"),
+    ("range", "00000000005"),
+    ("range", "1:0000000005"),
+    ("range", "0000000001:5"),
+    ("range", "0000000005"),
+    ("range", "1:"),
+    ("range", ":5"),
+    ("range", "1:5:7"),
+    ("range", "1:5x"),
     ("range", "+1"),
     ("range", "1:+2"),
     ("range", "1,"),
